@@ -102,7 +102,7 @@ def run_case(stream, seed, ctx, params):
     mode = rng.choice(['cards', 'data', 'mixed'])
     table = {}
     # arithmetic / geometric patterns make the shorthand generator's life interesting
-    base = rng.choice([[0, 1, 2, 4], [1, 1, 1, 0], [0, 0, 1], [1, 2, 3, 4, 5], [0.5, 1, 0]])
+    base = rng.choice([[0, 1, 2, 4], [1, 1, 1, 0], [0, 0, 1], [1, 2, 3, 4, 5], [0.5, 1, 0], [0, 1e-10, 1, 2.5e-11]])
     for c in d.cells:
         if c.u != 0:
             table[c.id] = {p: 1.0 for p in parts}
